@@ -154,8 +154,9 @@ pub fn lace_tty(args: &[&str], cwd: &Path, keys: &[Vec<u8>], release: bool, limi
         });
     }
     let mut child = cmd.spawn().expect("spawn lace on a pty");
+    // (the parent keeps the slave open only to ask how many typed bytes are still unread)
+    let slave_probe = slave;
     unsafe {
-        libc::close(slave);
         let fl = libc::fcntl(master, libc::F_GETFL);
         libc::fcntl(master, libc::F_SETFL, fl | libc::O_NONBLOCK);
     }
@@ -206,14 +207,27 @@ pub fn lace_tty(args: &[&str], cwd: &Path, keys: &[Vec<u8>], release: bool, limi
             libc::write(master, k.as_ptr() as *const libc::c_void, k.len());
         }
         typed += 1;
-        // the key is taken when the program leaves raw mode again (or ends)
+        // the key is taken when the terminal's input queue is empty again, or the program leaves
+        // raw mode, or ends (two reads in a row re-enter raw mode faster than this loop can see)
+        let pending = |fd: libc::c_int| -> i32 {
+            let mut n: libc::c_int = 0;
+            unsafe {
+                if libc::ioctl(fd, libc::FIONREAD, &mut n) != 0 {
+                    return -1;
+                }
+            }
+            n
+        };
         let t1 = std::time::Instant::now();
-        while raw_mode(master) && t1.elapsed().as_millis() < 3000 {
+        while raw_mode(master) && pending(slave_probe) != 0 && t1.elapsed().as_millis() < 3000 {
             if let Ok(Some(st)) = child.try_wait() {
                 status = Some(st);
                 break 'outer;
             }
             std::thread::sleep(std::time::Duration::from_micros(300));
+        }
+        if std::env::var("VERIF_TTY_DEBUG").is_ok() {
+            crate::lacebox::log(&format!("tty: key {:?} taken after {} ms (since start {} ms)", k, t1.elapsed().as_millis(), t0.elapsed().as_millis()));
         }
     }
     let st = match status {
@@ -222,8 +236,32 @@ pub fn lace_tty(args: &[&str], cwd: &Path, keys: &[Vec<u8>], release: bool, limi
     };
     unsafe {
         libc::close(master);
+        libc::close(slave_probe);
     }
     let stdout = t_out.join().unwrap_or_default();
     let stderr = t_err.join().unwrap_or_default();
     (Run { code: st.code(), signal: st.signal(), stdout, stderr, timed_out }, typed)
+}
+
+/// File stems for the process-level checks: what the tool does must not depend on how a file is
+/// called. Variant 0-7: plain `prog`; then dotted stems, long ASCII, non-ASCII (2- and 3-byte
+/// characters, short and longer than 64 bytes, behind 0-7 ASCII characters so that every byte
+/// offset parity occurs), a blank, a leading dot.
+pub fn stem(variant: u64) -> String {
+    match variant % 28 {
+        0..=7 => "prog".into(),
+        8 => "prog.v2".into(),
+        9 => "a.b.c".into(),
+        10 => "x".repeat(100),
+        11 => "né".into(),
+        12 => "my prog".into(),
+        13 => ".hidden".into(),
+        14 => "日本語のプログラム".repeat(4),
+        15 => "prog.tar.gz.old".into(),
+        16 => "UPPER.Case".into(),
+        17 => "ß".repeat(33),
+        18 => format!("{}{}", "dir-like-name.", "ü".repeat(31)),
+        19 => "€".repeat(22),
+        k => format!("{}{}", "a".repeat(k as usize - 20), "é".repeat(40)),
+    }
 }
